@@ -40,7 +40,7 @@ TRUSTED = [
 ]
 
 ERR_CODE = {"ImportError": 1, "ModuleNotFoundError": 2, "NameError": 3, "TypeError": 4, "SyntaxError": 5,
-            "IndentationError": 5, "AttributeError": 6, "ExportError": 6}
+            "IndentationError": 5, "AttributeError": 6, "ExportError": 6, "ValueError": 8}
 
 
 # ---------------------------------------------------------------- structured document generator
@@ -425,6 +425,20 @@ def guard_discriminator_ref_property(doc: dict, layout: tuple) -> bool:
     return False
 
 
+def guard_sunder_enum_value(doc: dict, layout: tuple) -> bool:
+    """F20e: an enum value that starts and ends with a single underscore (member name _X_)"""
+    def vals(x: Any):
+        if isinstance(x, dict):
+            if isinstance(x.get("enum"), list):
+                yield from x["enum"]
+            for v in x.values():
+                yield from vals(v)
+        elif isinstance(x, list):
+            for v in x:
+                yield from vals(v)
+    return any(isinstance(v, str) and re.fullmatch(r"_[^_](.*[^_])?_", v) for v in vals(doc))
+
+
 STREAMING = ("application/octet-stream", "text/event-stream", "application/x-ndjson")
 
 
@@ -538,6 +552,7 @@ FINDINGS: dict[str, tuple] = {
     "F04c": (lambda c, m, f: c == "SyntaxError" and "duplicate argument" in m and "/endpoints/" in f, 0, guard_duplicate_param),
     "F01i": (lambda c, m, f: c == "ImportError" and "partially initialized module" in m and "/models/" in m, 2, guard_inline_name_collision),
     "F01j": (lambda c, m, f: c == "ModuleNotFoundError" and re.search(r"No module named '[\w.]*\.models\.\w+'", m) is not None and "/models/" in f, 1, guard_discriminator_ref_property),
+    "F20e": (lambda c, m, f: c == "ValueError" and "_sunder_ names" in m, 7, guard_sunder_enum_value),
     "F01h": (lambda c, m, f: c == "ModuleNotFoundError" and re.search(r"No module named '[\w.]*\.models\.\w+'", m) is not None and "/models/" in f, 1, guard_any_cycle),
 }
 FID_BIT = {fid: i + 1 for i, fid in enumerate(FINDINGS)}   # bit in the code handed to chk.decide
@@ -545,6 +560,7 @@ FID_BIT = {fid: i + 1 for i, fid in enumerate(FINDINGS)}   # bit in the code han
 F01I_DOC = json.loads('{"openapi": "3.0.3", "info": {"title": "T", "version": "1.0"}, "paths": {"/a": {"get": {"operationId": "getIt", "responses": {"200": {"description": "ok", "content": {"application/json": {"schema": {"$ref": "#/components/schemas/Pet"}}}}}}}}, "components": {"schemas": {"Item": {"allOf": [{"$ref": "#/components/schemas/Invoice"}, {"type": "object", "properties": {"title": {"type": "object", "additionalProperties": true}, "created_at": {"anyOf": [{"$ref": "#/components/schemas/Owner"}, {"$ref": "#/components/schemas/Invoice"}]}, "score": {"type": "string", "format": "date-time", "nullable": true}, "amount": {"type": "string", "format": "date"}, "parent": {"type": "object", "additionalProperties": {"$ref": "#/components/schemas/Owner"}}, "id": {"type": "number", "format": "double", "nullable": true}}, "required": ["created_at", "score", "amount"]}]}, "Owner": {"type": "object", "properties": {"parent": {"type": "object", "properties": {"updated": {"type": "number"}}}}, "description": "A thing."}, "Invoice": {"type": "string", "enum": ["v"]}}}}')
 
 WITNESSES: dict[str, tuple[dict, tuple]] = {
+    "F20e": (_w({"/a": {"get": _op(R("E"))}}, {"E": {"type": "string", "enum": ["_a_", "b"]}}), ("client", None)),
     "F01i": (F01I_DOC, ("client", None)),
     "F01a": (_w({"/a": {"get": _op(R("A"))}}, {"A": {"type": "object", "properties": {"b": R("B")}},
                                               "B": {"type": "object", "properties": {"a": R("A")}}}), ("client", None)),
